@@ -6,6 +6,7 @@ package agent
 import (
 	"fmt"
 	"log"
+	"sync"
 
 	"github.com/hashicorp/serf/serf"
 )
@@ -22,6 +23,12 @@ type eventStream struct {
 	filters []EventFilter
 	logger  *log.Logger
 	seq     uint64
+
+	// stopLock serialises HandleEvent with Stop: the agent's event loop works on
+	// a copy of the handler list, so it can still hand an event to a stream
+	// that has been deregistered and stopped in the meantime
+	stopLock sync.Mutex
+	stopped  bool
 }
 
 func newEventStream(client streamClient, filters []EventFilter, seq uint64, logger *log.Logger) *eventStream {
@@ -47,6 +54,11 @@ func (es *eventStream) HandleEvent(e serf.Event) {
 
 	// Do a non-blocking send
 HANDLE:
+	es.stopLock.Lock()
+	defer es.stopLock.Unlock()
+	if es.stopped {
+		return
+	}
 	select {
 	case es.eventCh <- e:
 	default:
@@ -55,7 +67,12 @@ HANDLE:
 }
 
 func (es *eventStream) Stop() {
-	close(es.eventCh)
+	es.stopLock.Lock()
+	defer es.stopLock.Unlock()
+	if !es.stopped {
+		es.stopped = true
+		close(es.eventCh)
+	}
 }
 
 func (es *eventStream) stream() {
